@@ -86,7 +86,17 @@ def gen_hc(rng, tier):
         extra = rng.choice(pairs)
         if gen.is_acyclic(n, list(map(tuple, start)) + [extra]) and list(extra) not in black and (white is None or list(extra) in white):
             fixed.append(list(extra))
-    return {"names": names, "n": n, "start": [list(e) for e in start], "scores": rand_table(rng, n), "black": black, "white": white,
+    scores = rand_table(rng, n)
+    if n >= 4 and rng.random() < .3:
+        # a family in which greedy search has to UNDO one of its own moves: A, then B, then C become parents of Y one by one, after which
+        # dropping A is the best move (A is redundant given B and C)
+        y, a, b, c = rng.sample(range(n), 4)
+        base = {(): 0, (a,): 500, (b,): 400, (c,): 390, (a, b): 600, (a, c): 560, (b, c): 2000, (a, b, c): 1000}
+        for mk in range(2 ** n):
+            ps = tuple(sorted(p_ for p_ in (a, b, c) if mk >> p_ & 1))
+            others = bin(mk & ~(2 ** a | 2 ** b | 2 ** c)).count("1")
+            scores[y][mk] = rs(Fraction(base[tuple(sorted(ps, key=lambda q: (a, b, c).index(q)))]) - 3000 * others + Fraction(rng.randint(0, 99), 128))
+    return {"names": names, "n": n, "start": [list(e) for e in start], "scores": scores, "black": black, "white": white,
             "fixed": fixed, "tabu": rng.choice([0, 0, 2, 100]), "eps": rs(rng.choice([Fraction(0), Fraction(1, 1024), Fraction(1), Fraction(1, 10000)])),
             "max_iter": rng.choice([1, 2, 5, 50, 50]), "max_indegree": rng.choice([None, None, 1, 2]),
             "use_cache": rng.random() < .5, "form": rng.randrange(216), "warm": rng.choice([0, 0, rng.randrange(1, 10 ** 6)]), "prior_c": rs(rng.choice([Fraction(0), Fraction(0), Fraction(-45, 64), Fraction(3, 4), Fraction(-5, 2)]))}
@@ -104,8 +114,14 @@ def run_hc(case, drv):
     mscores = case["scores"] if prior_c == 0 else \
         [[rs(Fraction(x) + prior_c * bin(mk).count("1")) for mk, x in enumerate(row)] for row in case["scores"]]
     start = DAG()
-    start.add_nodes_from(names)
-    start.add_edges_from([(names[u], names[v]) for u, v in case["start"]])
+    # the caller's start graph lists its nodes (and edges) in its own order, which need not be the column order of the data
+    import random as _r0
+    prng0 = _r0.Random(case.get("form", 0) + n)
+    node_order, edge_order = list(names), [(names[u], names[v]) for u, v in case["start"]]
+    prng0.shuffle(node_order)
+    prng0.shuffle(edge_order)
+    start.add_nodes_from(node_order)
+    start.add_edges_from(edge_order)
     opts = dict(black=case["black"], white=case["white"], fixed=case["fixed"], tabu=case["tabu"], eps=case["eps"],
                 max_iter=case["max_iter"], max_indegree=case["max_indegree"])
     m = drv.call("hc_run", g={"nodes": list(range(n)), "edges": case["start"]}, scores=mscores, **opts)
